@@ -62,13 +62,16 @@ decreasing_by
   have : d.length ≠ 0 := by simpa using hd
   omega
 
-def mkdirs (fs : FS) (ds : List Path) : FS :=
-  ds.foldl (fun fs d => match fs.mkdir d with | .ok fs' => fs' | .error _ => fs) fs
+/-- `os.mkdir`, ignoring failure -/
+def mkdirStep (fs : FS) (d : Path) : FS := match fs.mkdir d with | .ok fs' => fs' | .error _ => fs
+/-- `os.rmdir`, ignoring failure -/
+def rmdirStep (fs : FS) (d : Path) : FS := match fs.rmdir d with | .ok fs' => fs' | .error _ => fs
+
+def mkdirs (fs : FS) (ds : List Path) : FS := ds.foldl mkdirStep fs
 
 /-- remove the directories in `ds` that are empty, children before parents -/
 def rmEmpty (fs : FS) (ds : List Path) : FS :=
-  let sorted := ds.mergeSort (fun a b => a.length ≥ b.length)
-  sorted.foldl (fun fs d => match fs.rmdir d with | .ok fs' => fs' | .error _ => fs) fs
+  (ds.mergeSort (fun a b => a.length ≥ b.length)).foldl rmdirStep fs
 
 def properAncestor (a b : Path) : Bool := a <+: b && a != b
 
@@ -82,7 +85,8 @@ def bfSetup (s : SpecSt) (path : Path) : Except Exc (SpecSt × List Path) :=
     | .ok ds =>
       let fs1 := mkdirs s.fs ds
       let fs2 := if fs1.isFile path then fs1.erase path else fs1
-      let bad := s.claimedFiles.any (fun c => properAncestor c path || properAncestor path c)
+      -- the documented obligation concerns outputs: targets that are being built or were built
+      let bad := (s.inProg ++ s.outputs).any (fun c => properAncestor c path || properAncestor path c)
       .ok ({ s with fs := fs2, claimedFiles := path :: s.claimedFiles, inProg := path :: s.inProg,
                     obligation := s.obligation || bad }, ds)
 
